@@ -168,6 +168,11 @@ func Run(p *Plan, ch simsync.Chooser) *Outcome {
 		}
 		cacheTouched = true
 	}
+	setShared(p.SharedArgs)
+	defer setShared(false)
+	if p.SharedArgs {
+		out.Counters.Add("runs_with_shared_rule_and_function_tables", 1)
+	}
 	sim := simsync.New(ch, p.Cfg)
 	cs := make([]*clientState, len(p.Clients))
 	for c := range p.Clients {
